@@ -50,3 +50,19 @@ Theorem C14_parser_complete : forall (Vr : Type) (E : EqDec Vr) (G : cfg Vr),
   exists f t, forall f', f <= f' -> ll1_parse G f' w = Some t.
 Proof. exact (@ll1_parse_complete). Qed.
 Print Assumptions C14_parser_complete.
+
+(* FOLLOW by rules = FOLLOW by sentential forms: B is followed by l in a form derivable from the start symbol whose rest is completed
+   to a terminal word. The first direction holds for every grammar; the converse when no variable is unreachable and body symbols and
+   the start symbol are generating (the property's "no useless symbols") *)
+From PFL Require Import Proofs.FollowForms.
+Theorem C14_follow_sentential_sound : forall (Vr : Type) (G : cfg Vr) (s : Vr), g_start G = Some s ->
+  forall B l, FollowsForm G s B l -> Follows G B l.
+Proof. exact (@form_follows). Qed.
+Print Assumptions C14_follow_sentential_sound.
+
+Theorem C14_follow_sentential_complete : forall (Vr : Type) (G : cfg Vr) (s : Vr), g_start G = Some s ->
+  (forall A body, In (A, body) (g_prods G) -> exists pre post, steps G (V s :: nil) (pre ++ V A :: post)) ->
+  (forall A body X, In (A, body) (g_prods G) -> In X body -> exists w, derives G X w) ->
+  forall B l, (exists w, derives G (V s) w) -> Follows G B l -> FollowsForm G s B l.
+Proof. exact (@follows_form). Qed.
+Print Assumptions C14_follow_sentential_complete.
